@@ -223,6 +223,8 @@ def gen_case(rng):
         elif r < 0.54:
             ops.append({"op": "badadd", "kind": rng.choice(["length", "missing", "extra", "text", "inner"]),
                         "rows": [[rng.randrange(max(cur_cap, 1)), fresh()] for _ in range(2)] if cur_cap else []})
+        elif r < 0.56:
+            ops.append({"op": "badresize", "extra": rng.randint(1, 4)})
         elif r < 0.60:
             ops.append({"op": "clear"})
         elif r < 0.70:
@@ -404,6 +406,14 @@ def run_case(case):
                     return Failure("oracle", f"{where}: illegal resize accepted")
                 if (err or "ok") != m:
                     return Failure("corr", f"{where}: outcome impl={err} model={m}")
+            elif kind == "badresize":
+                # a capacity that cannot be allocated (not an integer): whatever is raised, the store stays as it was
+                # (the full-state comparison below sees a half-applied resize)
+                try:
+                    store.resize(ref_cap + op["extra"] + 0.5)
+                    return Failure("oracle", f"{where}: resize to a non-integer capacity accepted")
+                except (TypeError, ValueError):
+                    pass
             elif kind == "retrieve":
                 idx = op["idx"]
                 sel = {"all": None, "one": fields[0], "some": [fields[-1], "index"],
